@@ -140,6 +140,10 @@ func (p *Parser) parseString(data string) error {
 			linebuffer.Reset()
 		}
 	}
+	if err := scanner.Err(); err != nil {
+		// e.g. a line longer than the scanner's buffer: everything after it would be ignored
+		return fmt.Errorf("failed to read the configuration at line %d: %w", p.currentLine+1, err)
+	}
 	if inBackticks {
 		return errors.New("backticks left open")
 	}
